@@ -1264,6 +1264,10 @@ def _replay_log(seed):
             truth = []
             for k in range(K):
                 cols = ["Step", "Temp", "PotEng"] + (["Press"] if rng.random() < 0.5 else [])
+                if trial % 2 == 1:
+                    # echoed input-script lines that merely MENTION the section words away from the line start: they are neither
+                    # a header ('Step ' at the start of the line) nor an end ('Loop time of ' at the start of the line)
+                    lines += [f"# Step {k + 1}: equilibration at T = 0.{k + 4}", "print 'the last Loop time of the previous run is above'"]
                 lines += [f"run {1000 * (k + 1)}", "Per MPI rank memory allocation (min/avg/max) = 3.1 | 3.1 | 3.1 Mbytes"]
                 lines.append(" ".join(cols) + " ")
                 nrow = rng.randint(1, 6)
